@@ -340,7 +340,7 @@ func (s *Sys) Exec(toks []string) string {
 		if !strings.HasPrefix(res, "err") && !strings.HasPrefix(res, "panic") {
 			s.pending = append(s.pending, toks)
 		}
-	case "save", "wsave", "ctab", "rollback", "reopen", "reopenat", "load", "lvfo", "wlvfo", "dvreload", "savecs":
+	case "save", "wsave", "ctab", "rollback", "reopen", "reopenat", "load", "lvfo", "wlvfo", "dvreload", "dvfrom", "savecs":
 		if !strings.HasPrefix(res, "err") {
 			s.pending = nil
 		}
@@ -536,6 +536,10 @@ func (s *Sys) exec1(toks []string) string {
 			return fmt.Sprintf("wp(%s;ops=%s;fl=%s)", errStr(err), strings.Join(ops, ","), strings.Join(fl, ","))
 		case "lvfo":
 			return errStr(t.LoadVersionForOverwriting(atoi(toks[1])))
+		case "dvfrom":
+			// MutableTree.DeleteVersionsFrom(v) on a tree that has loaded a version below v and goes
+			// on writing without reloading
+			return errStr(t.DeleteVersionsFrom(atoi(toks[1])))
 		case "dvreload":
 			// rollback "by deleting all versions above v and reloading": DeleteVersionsFrom(v+1),
 			// then either a new tree object (reopen) or LoadVersion(v) on the same one
